@@ -96,5 +96,33 @@ def overlap_obls(prefix):
     return out
 
 
-OBLIGATIONS = overlap_obls("e")
+VL_FUNCS = ["ldb_versions_add_files", "ldb_version_unref", "ldb_version_ref", "ldb_version_destroy", "ldb_version_clear",
+            "ldb_versions_append_version", "ldb_version_create", "ldb_version_init", "ldb_vector_push", "ldb_vector_clear"]
+VL_OPS = {0: ("add-files", "ldb_versions_add_files: live == exactly the file numbers of every version in the list, every level 0..6"),
+          1: ("ref-unref", "ldb_version_ref/unref of a symbolic list member: count +-1; last unref unlinks exactly that version, "
+                           "unrefs each of its files once, list order kept; add_files afterwards == files of the remaining versions"),
+          2: ("append", "ldb_versions_append_version: new version current at the tail with one reference; previous current loses one "
+                        "(dropped with its files unref'd iff it was the last); add_files afterwards == files of the versions in the list")}
+
+
+def versionlist_obls(prefix):
+    out = []
+    cfg = {0: (((0, 0), "quick"), ((1, 1), "quick"), ((1, 2), "quick"), ((2, 2), "quick"), ((3, 1), "quick"), ((3, 2), "thorough")),
+           1: (((1, 2), "quick"), ((2, 2), "quick"), ((3, 1), "quick"), ((3, 2), "thorough")),
+           2: (((0, 2), "quick"), ((1, 2), "quick"), ((2, 1), "quick"), ((2, 2), "quick"), ((3, 1), "thorough"))}
+    for op in (0, 1, 2):
+        nm, what = VL_OPS[op]
+        for (k, fv), tier in cfg[op]:
+            out.append(Obl("%s.versions-%s-K%d-F%d" % (prefix, nm, k, fv), "vset/versionlist.c",
+                           real=["dbformat.c", "util/comparator.c", "util/buffer.c", "util/slice.c"], include_real=INC, kit=KIT,
+                           defs={"VP_OP": op, "VP_K": k, "VP_FV": fv, "VP_NF": 3, "VP_VEC_CAP": 4}, unwind=9,
+                           unwindset={"vp_realloc_ptrs.0": 5, "check_live.0": 17, "check_live.1": 17, "rb_set64_put.0": 16,
+                                      "ldb_rb_set64_put.0": 16},
+                           tier=tier, timeout=400, functions=VL_FUNCS, desc=what,
+                           bounds="%d versions x %d files (3 distinct file objects, may be shared), each file at a symbolic level 0..6, "
+                                  "version reference counts 1..3, file numbers 1..15" % (k, fv)))
+    return out
+
+
+OBLIGATIONS = overlap_obls("e") + versionlist_obls("b")
 META = {}
